@@ -242,6 +242,35 @@ def build(cfg, values=None):
                 obs.append(('%s-axis-exchange[%d,%d]' % (which, r, c), v, K2.get((swap(r), swap(c)), 0)))
             if len(K1) != len(K2):
                 obs.append(('%s-axis-exchange-count' % which, Sym.lift(len(K1)), Sym.lift(len(K2))))
+        elif rel == 'j':
+            # axis exchange for a joint between two panels: the penalty constants of a joint along x = const equal those of the
+            # joint along y = const between the same two laminates turned by 90 degrees (and likewise for the two 90-degree joints)
+            from compmech.panel.connections import calc_kt_kr
+            perm = [1, 0, 2, 4, 3, 5]
+
+            def mk(prefix, like=None):
+                p_ = ctx.new_panel('plate', 1, 1, prefix=prefix)
+                lam = p_._verif_lam
+                if like is not None:
+                    F1 = like._verif_lam.ABD
+                    F2 = np.zeros((6, 6), dtype=object)
+                    for i in range(6):
+                        for j in range(6):
+                            F2[i, j] = F1[perm[i], perm[j]]
+                    lam.ABD = F2
+                    p_.plyts = like.plyts
+                    lam.t = lam.h = like._verif_lam.t
+                    p_.a, p_.b = like.b, like.a
+                lam.A, lam.D = lam.ABD[0:3, 0:3], lam.ABD[3:6, 3:6]
+                p_.lam = lam
+                p_._rebuild()
+                return p_
+            p1, p2 = mk('p1_'), mk('p2_')
+            q1, q2 = mk('q1_', p1), mk('q2_', p2)
+            for k1, k2 in (('xcte', 'ycte'), ('ycte', 'xcte'), ('xcte-ycte', 'ycte-xcte'), ('ycte-xcte', 'xcte-ycte')):
+                a_, b_ = calc_kt_kr(p1, p2, k1), calc_kt_kr(q1, q2, k2)
+                obs.append(('joint-axis-exchange[%s,kt]' % k1, a_[0], b_[0]))
+                obs.append(('joint-axis-exchange[%s,kr]' % k1, a_[1], b_[1]))
         elif rel == 'f':
             model = cfg['model']
             sc, e, q = ctx.V('s_len'), ctx.V('e_mod'), ctx.V('q_rho')
@@ -316,6 +345,7 @@ def configs(tier, seed):
             out.append({'rel': 'e', 'm': 1, 'n': 2, 'which': which, 'group': '(e) axis exchange:%s' % which})
         for model in ('plate', 'cpanel'):
             out.append({'rel': 'f', 'm': 2, 'n': 2, 'which': which, 'model': model, 'group': '(f) similarity:%s:%s' % (which, model)})
+    out.append({'rel': 'j', 'm': 1, 'n': 1, 'which': 'ktkr', 'group': '(j) axis exchange of a joint: penalty constants'})
     out[0]['canary'] = True
     out[-1]['canary'] = True
     out[len(out) // 2]['canary'] = True
@@ -332,6 +362,7 @@ def main():
                 'compmech/panel/models/plate_clt_donnell_bardell_num.pyx', 'compmech/panel/models/cpanel_clt_donnell_bardell_num.pyx'):
         run.encoded(rel, '*')
     run.encoded('compmech/panel/_panel.py', 'Panel.calc_k0, calc_kG0, calc_kM, calc_kA, calc_cA, _get_lam_F')
+    run.encoded('compmech/panel/connections/penalty_constants.py', 'calc_kt_kr (relation j)')
     cf = configs(run.tier, run.seed)
     run.bounds = {'series_orders_(m,n)': sorted({(c['m'], c['n']) for c in cf}), 'pairs': sorted({c['group'].split(':')[0] for c in cf}), 'configurations': len(cf),
                   '(d) quadrature': 'interpolatory rule with 8 rational nodes per direction, exact to degree 7 (the shipped Gauss table is C10)'}
